@@ -13,6 +13,7 @@ class Cell:
         self.best = None          # last complete result
         self.best_bound = -1
         self.partial = None       # an incomplete result (deadline)
+        self.prio = None          # result of the strict-priority family (run_priorities)
 
 class Explorer:
     """Runs cells, several at a time, and accumulates evidence: per cell only
@@ -24,6 +25,7 @@ class Explorer:
         self.par, self.jobs = par, jobs
         self._lock = threading.Lock()
         self._slots = list(range(par))
+        self._pslots = list(range(par * jobs))
 
     def file_for(self, data):
         return inputs.to_file(self.dir, data)
@@ -33,14 +35,19 @@ class Explorer:
         self.cells.append(c)
         return c
 
-    def run_pass(self, bound, cells=None, extra_opts=None):
+    def run_pass(self, bound, cells=None, extra_opts=None, time_limit=None):
         """Explore every (given) cell completely at `bound`.  Returns False if
-        the deadline cut the pass short."""
+        the deadline (or the time limit given for this pass) cut the pass short."""
         chk = self.chk
         cells = list(self.cells if cells is None else cells)
         ok = [True]
+        t_end = time.time() + time_limit if time_limit else None
+        class _L:
+            def left(self_inner):
+                return chk.left() if t_end is None else min(chk.left(), t_end - time.time())
+        L = _L()
         def one(c):
-            if chk.left() < 4:
+            if L.left() < 4:
                 with self._lock:
                     if ok[0]:
                         chk.cap('deadline: bound %d not run from cell %s [%s] on' % (bound, c.leg, c.desc))
@@ -52,7 +59,7 @@ class Explorer:
                 opts = dict(c.opts)
                 opts.update(extra_opts or {})
                 path = self.file_for(c.data) if c.data is not None else None
-                r = lbzx.explore(c.variant, c.args, bound=bound, jobs=self.jobs, deadline=chk.left() - 2,
+                r = lbzx.explore(c.variant, c.args, bound=bound, jobs=self.jobs, deadline=L.left() - 2,
                                  stdin_path=path, policy=c.policies, cpu_base=slot * self.jobs, **opts)
                 self._judge(c, path, r, opts)
                 with self._lock:
@@ -71,6 +78,47 @@ class Explorer:
                 with self._lock:
                     self._slots.append(slot)
         with ThreadPoolExecutor(max_workers=self.par) as ex:
+            list(ex.map(one, cells))
+        return ok[0]
+
+    def run_priorities(self, kfun, cells=None, label='priorities'):
+        """For every cell: one execution under each strict-priority scheduler
+        (all K! priority orders of its K threads, K = kfun(cell) <= 7; a thread
+        runs only while all threads of higher priority are blocked).  These
+        are the schedules in which one thread is starved for as long as
+        possible -- exactly what a small number of deviations from P0/P1/P2
+        cannot produce.  Same oracle as the cell."""
+        chk = self.chk
+        cells = list(self.cells if cells is None else cells)
+        ok = [True]
+        def one(c):
+            if chk.left() < 4:
+                with self._lock:
+                    if ok[0]:
+                        chk.cap('deadline: %s not run from cell %s [%s] on' % (label, c.leg, c.desc))
+                    ok[0] = False
+                return
+            with self._lock:
+                slot = self._pslots.pop()
+            try:
+                K = max(1, min(7, int(kfun(c))))
+                opts = dict(c.opts)
+                opts['nprio'] = K
+                path = self.file_for(c.data) if c.data is not None else None
+                r = lbzx.explore(c.variant, c.args, bound=0, jobs=1, deadline=chk.left() - 2,
+                                 stdin_path=path, policy='prio:%d' % K, cpu_base=slot, **opts)
+                self._judge(c, path, r, opts)
+                with self._lock:
+                    if r['complete']:
+                        c.prio = r
+                    else:
+                        if ok[0]:
+                            chk.cap('deadline inside %s of cell %s [%s]' % (label, c.leg, c.desc))
+                        ok[0] = False
+            finally:
+                with self._lock:
+                    self._pslots.append(slot)
+        with ThreadPoolExecutor(max_workers=self.par * self.jobs) as ex:
             list(ex.map(one, cells))
         return ok[0]
 
@@ -126,6 +174,17 @@ class Explorer:
         chk = self.chk
         tot = dict(executions=0, states=0, transitions=0, cells=0, max_pre=0, max_cp=0, classes=0)
         by_bound = {}
+        pr = dict(executions=0, states=0, transitions=0, cells=0, classes=0)
+        for c in self.cells:
+            if c.prio is not None:
+                pr['executions'] += c.prio['executions']
+                pr['states'] += c.prio['distinct_states']
+                pr['transitions'] += c.prio['cp_total']
+                pr['classes'] += len(c.prio['classes'])
+                pr['cells'] += 1
+                tot['max_pre'] = max(tot['max_pre'], c.prio['max_preemptions'])
+                chk.leg(c.leg + '+strict-priority-schedulers', executions=c.prio['executions'], distinct_states=c.prio['distinct_states'],
+                        choice_points=c.prio['cp_total'], cells=1)
         for c in self.cells:
             r = c.best
             if r is None:
@@ -151,6 +210,13 @@ class Explorer:
                             'exec_by_deviations': c.best['exec_by_depth'],
                             'outcome_classes': [lbzx.cls_str(k)[:220] for k in c.best['classes'][:3]]})
         cov = chk.cov
+        if pr['cells']:
+            tot['executions'] += pr['executions']
+            tot['states'] += pr['states']
+            tot['transitions'] += pr['transitions']
+            tot['classes'] += pr['classes']
+            cov['strict_priority_scheduler_executions'] = cov.get('strict_priority_scheduler_executions', 0) + pr['executions']
+            cov['cells_run_under_all_priority_orders'] = cov.get('cells_run_under_all_priority_orders', 0) + pr['cells']
         cov['evaluations'] = cov.get('evaluations', 0) + tot['executions']
         cov['distinct_nontrivial'] = cov.get('distinct_nontrivial', 0) + tot['states']
         cov['states'] = cov.get('states', 0) + tot['states']
